@@ -264,6 +264,26 @@ fn judge(s: &Session) -> Option<(String, String)> {
     None
 }
 
+/// The inflated scanline streams of the images of the file the real encoder writes for this session (None: refused / not parseable).
+fn real_raws(s: &Session) -> Option<Vec<Vec<u8>>> {
+    let file = encode(s).ok()?;
+    let streams = image_streams(&file)?;
+    if streams.len() != s.images.len() {
+        return None;
+    }
+    streams.iter().map(|z| crate::props::c12::zlib_inflate(z).map(|x| x.0)).collect()
+}
+
+/// One model question per image: the stream `encodeRowsImpl` emits for these rows under this filter setting.
+fn model_lines(s: &Session) -> Vec<String> {
+    (0..s.images.len())
+        .map(|i| {
+            let (w, _, f, _) = s.images[i];
+            format!("c14 image {} {} {} {}", f, s.filter_bpp(), s.row_bytes(w), crate::util::hex(&s.pixels(i)))
+        })
+        .collect()
+}
+
 fn gen(rng: &mut Rng, n: usize) -> Vec<Session> {
     const CD: [(u8, u8); 12] = [(0, 8), (0, 16), (2, 8), (2, 16), (4, 8), (4, 16), (6, 8), (6, 16), (0, 1), (0, 4), (3, 2), (3, 8)];
     let mut v = Vec::new();
@@ -360,6 +380,43 @@ pub fn run_part(ctx: &mut Ctx) {
             }
         }
     }
+    // Tie B for `encodeRowsImpl` / `decodeRowsImpl` (Model/ScanlinesImpl.lean, theorems in Props/C14Image.lean): the scanline stream of every
+    // image, byte for byte (filter type bytes included: the choice of the adaptive filter is part of the model), and the model's own inverse
+    let mut lines: Vec<String> = Vec::new();
+    let mut owners: Vec<(usize, usize)> = Vec::new();
+    let mut raws: Vec<Option<Vec<Vec<u8>>>> = Vec::new();
+    for (k, s) in sessions.iter().enumerate() {
+        let r = real_raws(s);
+        if r.is_some() {
+            for (i, l) in model_lines(s).into_iter().enumerate() {
+                lines.push(l);
+                owners.push((k, i));
+            }
+        }
+        raws.push(r);
+    }
+    let answers = crate::model::ask(&lines);
+    let mut reported: std::collections::BTreeSet<String> = Default::default();
+    for ((k, i), a) in owners.iter().zip(&answers) {
+        ctx.rep.model_compared += 1;
+        let s = &sessions[*k];
+        let real = crate::util::hex(&raws[*k].as_ref().unwrap()[*i]);
+        let mut parts = a.split(' ');
+        let (stream, inv) = (parts.next().unwrap_or(""), parts.next().unwrap_or(""));
+        let path = if s.stream { "stream" } else { "writer" };
+        let bad = if stream != real {
+            Some((format!("correspondence: encoder-rows/{}/stream", path), format!("image {} of {}: encodeRowsImpl (model) differs from the scanline stream the encoder wrote (filter setting {})", i, s.images.len(), s.images[*i].2)))
+        } else if inv != "inverse" {
+            Some((format!("correspondence: encoder-rows/{}/model-inverse", path), format!("image {}: decodeRowsImpl does not invert encodeRowsImpl on these rows: `{}`", i, inv)))
+        } else {
+            None
+        };
+        if let Some((class, what)) = bad {
+            if reported.insert(class.clone()) || reported.len() < 4 {
+                ctx.rep.violation("model", &class, &what, s.json());
+            }
+        }
+    }
     ctx.rep.notes.push(format!(
         "encoder rows at the public API: {} sessions (1..4 images, later images of other sizes, every filter setting, write_image_data and StreamWriter in pieces); every emitted row reconstructed by the specification's formula from the harness's own parse of the file",
         sessions.len()
@@ -371,6 +428,15 @@ pub fn replay_case(ctx: &mut Ctx, case: &J) {
         ctx.rep.eval(true, s.key());
         if let Some((class, what)) = judge(&s) {
             ctx.rep.violation("oracle", &class, &what, s.json());
+        }
+        if let Some(raws) = real_raws(&s) {
+            let answers = crate::model::ask(&model_lines(&s));
+            for (i, a) in answers.iter().enumerate() {
+                let real = crate::util::hex(&raws[i]);
+                if a.split(' ').next().unwrap_or("") != real || !a.ends_with(" inverse") {
+                    ctx.rep.violation("model", "correspondence: encoder-rows/replay", &format!("image {}: encodeRowsImpl (model) differs from the scanline stream the encoder wrote", i), s.json());
+                }
+            }
         }
     }
 }
